@@ -14,19 +14,30 @@ from .source import SourceIndex
 TIMEOUT_MS = 20000
 
 
+def _mk_solver(kind, timeout_ms):
+    # 'auflia': z3's solver configured for the quantifier-free array/UF/LIA fragment (all obligations are in it,
+    # plus datatypes); 'default': the general-purpose configuration, used when the first returns unknown
+    s = z3.SolverFor('QF_AUFLIA') if kind == 'auflia' else z3.Solver()
+    s.set('timeout', timeout_ms)
+    return s
+
+
 def solve(ob: Obligation, timeout_ms=TIMEOUT_MS):
     asm, concl = ob.formula_parts()
-    s = z3.Solver()
-    s.set('timeout', timeout_ms)
-    s.add(*asm)
     t0 = time.time()
-    if ob.kind == 'cover':
+    r = z3.unknown
+    s = None
+    for kind in ('auflia', 'default'):
+        s = _mk_solver(kind, timeout_ms)
+        s.add(*asm)
+        if ob.kind != 'cover':
+            s.add(z3.Not(concl))
         r = s.check()
-        dt = time.time() - t0
-        return ('cover-ok' if r == z3.sat else ('cover-fail' if r == z3.unsat else 'unknown')), dt, None, s
-    s.add(z3.Not(concl))
-    r = s.check()
+        if r != z3.unknown:
+            break
     dt = time.time() - t0
+    if ob.kind == 'cover':
+        return ('cover-ok' if r == z3.sat else ('cover-fail' if r == z3.unsat else 'unknown')), dt, None, s
     if r == z3.unsat:
         return 'discharged', dt, None, s
     if r == z3.sat:
@@ -97,18 +108,7 @@ def run_contract(contract, src: SourceIndex, mode: str, quick=True):
     # merge obligations with the same name (one logical obligation, several paths): all must hold
     for ob in eng.obligations:
         status, dt, model, solver = solve(ob)
-        if status == 'unknown':
-            r2 = second_opinion(solver)
-            if r2 == 'unsat' and ob.kind != 'cover':
-                status = 'discharged'
-                backend = 'z3-4.8.12-cli'
-            elif r2 == 'sat' and ob.kind == 'cover':
-                status = 'cover-ok'
-                backend = 'z3-4.8.12-cli'
-            else:
-                backend = 'none'
-        else:
-            backend = 'z3-5.1-api'
+        backend = 'none' if status == 'unknown' else 'z3-5.1-api'
         results.append({'name': ob.name, 'status': status, 'time_s': round(dt, 4), 'backend': backend,
                         'kind': ob.kind, 'path': ob.meta.get('path'), 'line': ob.meta.get('line'),
                         'model': model_summary(model, ob), 'size': len(ob.pc) + len(ob.hyp),
